@@ -410,7 +410,7 @@ def field_types(depth=0, types=None):
 @st.composite
 def descriptor_spec(draw, depth=0, types=None, max_fields=5, names=None):
     name = draw(type_name())
-    n = draw(st.integers(0, max_fields))
+    n = draw(st.sampled_from([0] + [k for k in range(1, max_fields + 1) for _ in range(3)]))
     fnames = draw(st.lists(names or field_name(), min_size=n, max_size=n, unique=True))
     ftypes = [draw(field_types(depth, types)) for _ in fnames]
     return (name, tuple((t, f) for t, f in zip(ftypes, fnames)))
